@@ -400,27 +400,43 @@ Definition scalar_agrees (img : image) (o : op) (v : Z) : bool :=
 (* ------------------------------------------------------------------ ImageList.from_image *)
 (* drop_io_dim(slice.coordmap, out_ax_name); dpair = io_axis_indices(slice.coordmap, out_ax_name)
    (oracle, recorded from the running call); list.pop raises for an index out of range *)
-Definition drop_out_dim (cm : zaff) (dpair : option nat * option nat) : res zaff :=
-  match snd dpair with
-  | Some o => if Nat.ltb o (cs_ndim (arng cm)) then zdrop_io_dim cm (fst dpair) (Some o) true else Err EValue
-  | None => zdrop_io_dim cm (fst dpair) None true
+(* orth_axes(in_ax, out_ax, affine, allow_zero=True, tol=TINY) as the code has it: an entry counts as zero
+   when abs(entry) <= TINY - an ABSOLUTE tolerance on a dimensional quantity.  tinyz = floor(TINY * 2^k) for
+   the power-of-two scale k at which the harness hands affines to the model (0 for integer affines, where the
+   test is the exact one). *)
+Definition small_entry (tinyz x : Z) : bool := (Z.abs x <=? tinyz)%Z.
+Definition orth_axes_tol (i o : nat) (M : list (list Z)) (tinyz : Z) : bool :=
+  let L := map (fun row => removelast row) (removelast M) in
+  let rowo := nth o L [] in
+  forallb (fun jc => Nat.eqb (fst jc) i || small_entry tinyz (snd jc)) (combine (seq 0 (length rowo)) rowo) &&
+  forallb (fun kr => Nat.eqb (fst kr) o || small_entry tinyz (nth i (snd kr) 0%Z)) (combine (seq 0 (length L)) L).
+
+Definition drop_out_dim (cm : zaff) (dpair : option nat * option nat) (tinyz : Z) : res zaff :=
+  match fst dpair, snd dpair with
+  | None, Some o => if Nat.ltb o (cs_ndim (arng cm)) then zdrop_io_dim cm None (Some o) true else Err EValue
+  | None, None => zdrop_io_dim cm None None true
+  | Some i, None => zdrop_io_dim cm (Some i) None true
+  | Some i, Some o =>
+    if negb (Nat.ltb o (cs_ndim (arng cm))) then Err EValue
+    else if negb (orth_axes_tol i o (amat cm) tinyz) then Err EAxis
+    else bind (zdrop_io_dim cm None (Some o) true) (fun c1 => zdrop_io_dim c1 (Some i) None true)
   end.
 
 (* element k of ImageList.from_image(image, axis, dropout); (in_ax, out_ax) =
    io_axis_indices(image.coordmap, axis) (oracle).  The element is the k-th item of
    iter_axis(image, in_ax); with dropout its coordmap is drop_io_dim of THAT item's coordmap *)
 Definition image_list_item (img : image) (in_ax out_ax : option nat) (dropout : bool) (k : nat)
-           (dpair : option nat * option nat) : ires image :=
+           (dpair : option nat * option nat) (tinyz : Z) : ires image :=
   match in_ax with
   | None => IErr IAxis
   | Some a =>
     ibind (iter_axis_item img (AInt (Z.of_nat a)) [] k) (fun it =>
     match (if dropout then out_ax else None) with
     | None => IOk it
-    | Some _ => ibind (lift (drop_out_dim (icmap it) dpair)) (fun cm => mk_image (ishape it) (idata it) cm)
+    | Some _ => ibind (lift (drop_out_dim (icmap it) dpair tinyz)) (fun cm => mk_image (ishape it) (idata it) cm)
     end)
   end.
 
 Definition list_item_agrees (img : image) (in_ax out_ax : option nat) (dropout : bool) (k : nat)
-           (dpair : option nat * option nat) (expected : ires image) : bool :=
-  ires_eqb (image_list_item img in_ax out_ax dropout k dpair) expected.
+           (dpair : option nat * option nat) (tinyz : Z) (expected : ires image) : bool :=
+  ires_eqb (image_list_item img in_ax out_ax dropout k dpair tinyz) expected.
